@@ -235,7 +235,8 @@ def run_simulated(spec, config, seed, choices=None, result_file=None, knobs=None
     sim = make_sim(seed, choices=choices, p_stay=knobs.get("p_stay", 0.5), max_steps=max_steps)
     sim.user["feeder_delay"] = knobs.get("feeder_delay", False)
     sim.user["pipe_cap"] = knobs.get("pipe_cap")
-    from checks.c08 import _instrument
+    from checks.c08 import _instrument, _sig
+    sim.sig_fn = _sig
     _instrument()                      # bytecode-level pre-emption points in the parent's callback / loader / consumer code
     if knobs.get("opcode_plan"):
         sim.opcode_plan = list(knobs["opcode_plan"])
@@ -267,7 +268,7 @@ def refused_to_pickle(sink):
 
 def sim_summary(sim):
     return {"digest": sim.digest(), "trace": sim.trace, "decisions": sim.n_decisions, "switches": sim.n_switches,
-            "sim_s": sim.now, "counters": dict(sim.counters)}
+            "sim_s": sim.now, "counters": dict(sim.counters), "states": list(sim.state_sigs)}
 
 
 # ----------------------------------------------------------------------------- spec generation
